@@ -64,7 +64,7 @@ Proof.
   induction bl as [|b rest IH]; intros i v inb rules; [reflexivity|].
   cbn [block_scan]. destruct b as [rs| |].
   - apply IH.
-  - rewrite cmp_nat_SS. rewrite IH. reflexivity.
+  - destruct block_end_cmp as [c|]; [rewrite cmp_nat_SS|]; rewrite IH; reflexivity.
   - change (S i =? S v) with (i =? v). rewrite IH. reflexivity.
 Qed.
 
@@ -74,7 +74,7 @@ Proof.
   induction bl as [|b rest IH]; intros i v inb rules H; [reflexivity|].
   cbn [block_scan]. destruct b as [rs| |].
   - apply IH. lia.
-  - rewrite (cmp_nat_passed _ i v H). rewrite IH by lia. reflexivity.
+  - destruct block_end_cmp as [c|]; [rewrite (cmp_nat_passed _ i v H)|]; rewrite IH by lia; reflexivity.
   - replace (S i =? v) with false by (symmetry; apply Nat.eqb_neq; lia).
     replace (i =? v) with false by (symmetry; apply Nat.eqb_neq; lia).
     cbn [andb]. apply IH. lia.
@@ -103,9 +103,11 @@ Proof.
     + cbn [List.length] in Hk. cbn [ins]. replace (i + S k) with (S i + k) by lia.
       cbn [block_scan]. destruct b as [rs| |].
       * apply IH. lia.
-      * assert (C : cmp_nat block_end_cmp i (if S i + k <=? v then S v else v) = cmp_nat block_end_cmp i v).
-        { destruct (Nat.leb_spec (S i + k) v) as [L|L]; [apply cmp_nat_far; lia|reflexivity]. }
-        rewrite C. rewrite IH by lia. reflexivity.
+      * destruct block_end_cmp as [c|].
+        -- assert (C : cmp_nat c i (if S i + k <=? v then S v else v) = cmp_nat c i v).
+           { destruct (Nat.leb_spec (S i + k) v) as [L|L]; [apply cmp_nat_far; lia|reflexivity]. }
+           rewrite C. rewrite IH by lia. reflexivity.
+        -- rewrite IH by lia. reflexivity.
       * assert (C : (i =? (if S i + k <=? v then S v else v)) = (i =? v)).
         { destruct (Nat.leb_spec (S i + k) v) as [L|L]; [|reflexivity].
           replace (i =? S v) with false by (symmetry; apply Nat.eqb_neq; lia).
